@@ -164,7 +164,7 @@ fn permutations(n: usize) -> Vec<Vec<usize>> {
 }
 pub fn c04_enum(tier: &str) -> Value {
     let devs = [SPEC_PADWING[0].2, SPEC_PADWING[12].2];
-    let max_n = if tier == "thorough" { 4 } else { 3 };
+    let max_n = if tier == "thorough" { 5 } else { 4 };
     let mut alphabet = Vec::new();
     for dev in 0..2u8 { for chip in 0..2u8 { for flags in 0..2u8 { for id in 0..max_n as u16 { for len in [1u8, 3] {
         // thin the alphabet: second board / chip only with the smallest other fields
